@@ -25,11 +25,12 @@ pub static PROP: Prop = Prop {
     fixed,
     replay: Some(replay),
     breadcrumb: false,
+    fuzz: &[],
 };
 
 fn budget(t: Tier) -> Budget {
     Budget {
-        cases: t.pick(4_000, 120_000),
+        cases: t.pick(30_000, 400_000),
         max_len: 900,
         shards: 16,
         dual_profile: false,
